@@ -16,18 +16,22 @@ class Band(scen.Follower):
         super().__init__(s, bells, None)
 
     def tick(self, s, t):
-        bot = getattr(s, "bot", None)
-        if bot is not None and bot._is_ringing:
-            row = bot._row
-            for q in range(bot._place, min(len(row), bot._place + 1 + self.ahead)):
-                bell = row[q].number
-                key = (bot._row_number, q, id(row), self.second is not None and t >= self.second[0])
+        v = s.view
+        if v.ringing and v.turn is not None:
+            row_number, place, cur, _ = v.turn
+            hp = dict(v.rows.get(row_number, {}))      # the human places announced for this row
+            hp[place] = cur
+            for q in range(place, place + 1 + self.ahead):
+                if q not in hp:
+                    continue
+                bell = hp[q]
+                key = (v.touch, row_number, q)
                 if bell in self.bells and key not in self.done:
                     self.done.add(key)
-                    if bell == self.scripted_lead and bot._row_number == 0:
+                    if bell == self.scripted_lead and row_number == 0:
                         continue
                     lag = self.rng.choice(self.late)
-                    if self.second is not None and t >= self.second[0] and bot._row_number == 0 and bell == self.second[1]:
+                    if self.second is not None and t >= self.second[0] and row_number == 0 and bell == self.second[1]:
                         lag = self.second[2]
                     s.push(t + lag, "internal", lambda tt, b=bell: s.human_strike(tt, b))
                     if self.rng.random() < self.double_p:
